@@ -22,14 +22,16 @@ class BetaLikelihood(_OneDimensionalLikelihood):
 
     .. math::
         \begin{equation*}
-            \alpha = ms, \quad \beta = (1-m)s
+            \alpha = ms + 1, \quad \beta = (1-m)s + 1
         \end{equation*}
 
+    (The offset of one keeps :math:`\alpha, \beta \geq 1`, so that the density is bounded and unimodal
+    with its mode at :math:`m`.)
     The mixture parameter is the output of the GP passed through a logit function :math:`\sigma(\cdot)`.
     The scale parameter is learned.
 
     .. math::
-        p(y \mid f) = \text{Beta} \left( \sigma(f) s , (1 - \sigma(f)) s\right)
+        p(y \mid f) = \text{Beta} \left( \sigma(f) s + 1, (1 - \sigma(f)) s + 1 \right)
 
     :param batch_shape: The batch shape of the learned noise parameter (default: []).
     :param scale_prior: Prior for scale parameter :math:`s`.
